@@ -14,22 +14,21 @@ def check(run):
     for n in FLAT:
         verify.verify(run, c.E, c.contracts["ser:" + n], only=("documented_layout", "section_omitted_only_when_empty", "object_unchanged"))
         verify.verify(run, c.E, c.contracts["rt:" + n])
-    for k in ("ser:treeinfo.Header", "rt:treeinfo.Tree", "ser:treeinfo.Tree", "rt:discinfo.DiscInfo", "ser:discinfo.DiscInfo",
-              "meth:common.SortedDict.keys", "meth:common.SortedConfigParser.optionxform", "rt:treeinfo.Variant.section_name",
-              "rt:treeinfo.TreeInfo"):
-        if k in c.contracts:
-            verify.verify(run, c.E, c.contracts[k])
+    for k in ("rt:discinfo.DiscInfo:0", "rt:discinfo.DiscInfo:1", "rt:discinfo.DiscInfo:2", "rt:treeinfo.TreeInfo"):
+        verify.verify(run, c.E, c.contracts[k])
     n = 200 if run.tier == "quick" else 4000
     trees(run, c, n)
     roundtrip.roundtrip(run, c.mods, "discinfo", n, "timestamps incl. > 2^40 and fractional, single-line descriptions, 'ALL' or disc number lists; %d seeds" % n)
     run.assume("A2: ConfigParser.write emits sections/options in the dict_type's iteration order and read_file inverts write for values "
                "representable in the file syntax (single-line, no leading/trailing blanks; option names free of '=', ':' and not starting with '#;[')")
-    run.assume("A5: float(str(x)) == x for finite floats; int(str(i)) == i")
+    run.assume("A5: float(repr(x)) == x for finite floats and repr(x) is a numeral -?d+(.d+)?(e[+-]d+)?; int(str(i)) == i")
     run.assume("A5 (machine arithmetic): the [tree] timestamp is read through float(); the whole-tree round trip is stated for |timestamp| <= 2^53")
     run.note("proved: flat sections (layout, round trip) and the whole-tree write/read cycle TreeInfo.serialize -> TreeInfo.deserialize on the shape "
              "{top-level variant of any type, plain or dashed UID, one child of any type, one image table, one checksum, stage2, media} with every value "
              "symbolic (section naming by type, platforms incl. arch, option-name case, integer timestamp); more variants / platforms / path kinds and "
-             "the text layer (ConfigParser.write/read_file, byte-identical second dump) are covered by the bounded stand-in")
+             "the text layer (ConfigParser.write/read_file, byte-identical second dump) are covered by the bounded stand-in.  .discinfo: the "
+             "line-list writer/reader pair is proved for 'ALL' and for 1 or 2 non-negative disc numbers (all values symbolic), second write identical; "
+             "longer disc lists and build_file/parse_file are covered by the bounded stand-in")
 
 
 TREE_SCRIPT = r'''
